@@ -256,6 +256,10 @@ func TestConnectionLevelBehaviours(t *testing.T) {
 			cam.Close()
 			continue
 		}
+		if k == RST && errors.Is(err, syscall.ECONNRESET) {
+			cam.Close() // the reset overtook the end of connect(): that is the behaviour, too
+			continue
+		}
 		if err != nil {
 			t.Fatal(err)
 		}
